@@ -137,11 +137,11 @@ def expand(node, F, owner=None, stop=(), maxdepth=3, lambdas=None, resolve=None,
                      (accept is None or accept(t))]
             if resolve is not None:
                 r = resolve(out)
-                if r is not None and r.get("body") is not None and len(r["params"]) == len(args) and \
+                if r is False:
+                    cands = []
+                elif r is not None and r.get("body") is not None and len(r["params"]) == len(args) and \
                         r["q"] not in stack:
                     cands, fq = [r], r["q"]
-                elif r is False:
-                    cands = []
             if len(cands) == 1:
                 t = cands[0]
                 env = {}
